@@ -81,7 +81,8 @@ def build(nres, extras, ff):
         if res:
             mol.add_edge(atom_key[(res - 1, 'C')], atom_key[(res, 'N')])
     extra_keys = []
-    for idx, (element, attach) in enumerate(extras):
+    for idx, extra in enumerate(extras):
+        element, attach = extra[0], extra[1]
         if attach[0] == 'atom':
             anchors = [atom_key[(attach[1], attach[2])]]
             resid = attach[1] + 1
@@ -100,8 +101,8 @@ def build(nres, extras, ff):
         else:
             anchors = [atom_key[(attach[1], 'CA')], atom_key[(attach[2], 'CA')]]
             resid = attach[1] + 1
-        mol.add_node(key, atomname='%sZ%d' % (element, idx), resname='RA', resid=resid, chain='A', element=element,
-                     PTM_atom=True, atomid=key + 1)
+        mol.add_node(key, atomname=extra[2] if len(extra) > 2 else '%sZ%d' % (element, idx), resname='RA', resid=resid, chain='A',
+                     element=element, PTM_atom=True, atomid=key + 1)
         for anchor in anchors:
             mol.add_edge(key, anchor)
         extra_keys.append(key)
@@ -223,7 +224,7 @@ def check(nres, extras, mod_names, acc, sample=False):
     from vermouth.processors.canonicalize_modifications import CanonicalizeModifications
     ff = force_field(mod_names)
     mol, extra_keys = build(nres, extras, ff)
-    case = {'nres': nres, 'extras': [[e, list(a)] for e, a in extras], 'mods': list(mod_names)}
+    case = {'nres': nres, 'extras': [[x[0], list(x[1])] + list(x[2:]) for x in extras], 'mods': list(mod_names)}
     reference = mol.copy()
     grouped = groups_of(reference, set(extra_keys))
     try:
@@ -330,6 +331,10 @@ def all_extras(nres, max_extra):
             for b in bridges:
                 yield (one, ('S', b))
             if one[1][0] == 'atom':
+                # an unexplained atom that carries the NAME of a template atom (an anchor of some modification), chained onto
+                # the first unexplained atom: a name alone does not make it that template atom
+                for name in BLOCK_ATOMS:
+                    yield (one, (name[0], ('extra', 0), name))
                 for e in ('H', 'O'):
                     for s in sites:
                         if s[1] == one[1][1]:
@@ -425,6 +430,68 @@ def pipeline_case(item, acc):
         acc.violation(problem[0], problem[1], case)
 
 
+def double_request_case(item, acc):
+    """TWO modification requests name the same residue, and the input residue already carries the atoms of both (under arbitrary
+    names): the reference RepairGraph builds has both modifications, so both atoms are accounted for - they must come out
+    under their canonical names with both labels, not be dropped without a word."""
+    import vermouth
+    from vermouth.processors.annotate_mut_mod import AnnotateMutMod
+    from vermouth.processors.repair_graph import RepairGraph
+    from vermouth.processors.canonicalize_modifications import CanonicalizeModifications
+    layout, requested, order = item
+    case = {'layer': 'pipeline-double', 'layout': layout, 'requested': requested, 'order': list(order)}
+    ff = force_field(tuple(MODS))
+    system = vermouth.System(force_field=ff)
+    mol = vermouth.molecule.Molecule(force_field=ff)
+    key = 0
+    atom_key = {}
+    residues = LAYOUTS[layout]
+    for ridx, (chain, resid) in enumerate(residues):
+        for name in BLOCK_ATOMS:
+            mol.add_node(key, atomname=name, resname='RA', resid=resid, chain=chain, element=name[0], atomid=key + 1)
+            atom_key[(ridx, name)] = key
+            key += 1
+        for a, b in BLOCK_EDGES:
+            mol.add_edge(atom_key[(ridx, a)], atom_key[(ridx, b)])
+        if ridx:
+            mol.add_edge(atom_key[(ridx - 1, 'C')], atom_key[(ridx, 'N')])
+    chain, resid = residues[requested]
+    extras = {}
+    for element, anchor, canonical, label in (PIPE_EXTRAS['H-on-N'], PIPE_EXTRAS['O-on-C']):
+        mol.add_node(key, atomname='%sQ7' % element, resname='RA', resid=resid, chain=chain, element=element, atomid=key + 1)
+        mol.add_edge(key, atom_key[(requested, anchor)])
+        extras[key] = (canonical, label)
+        key += 1
+    system.molecules.append(mol)
+    spec = '%s-RA%d' % (chain, resid)
+    try:
+        with common.LogCapture() as log:
+            AnnotateMutMod(modifications=[(spec, name) for name in order]).run_system(system)
+            RepairGraph().run_system(system)
+            CanonicalizeModifications().run_system(system)
+    except Exception as err:   # pylint: disable=broad-except
+        acc.case(outcome='exc')
+        acc.violation('c14:pipeline-exception', 'the pipeline raised %r' % (err,), case)
+        return
+    out = system.molecules[0]
+    warned = 'unknown-input' in log.types()
+    problem = None
+    for node_key, (canonical, label) in extras.items():
+        if node_key not in out:
+            problem = ('c14:pipeline-removed-without-warning' if not warned else 'c14:pipeline-explainable-atom-removed',
+                       'requests %r on residue %s: its atom for %s (present in the input) was removed%s' % (
+                           list(order), spec, label, '' if warned else ' without an unknown-input warning'))
+            break
+        labels = [m.name for m in out.nodes[node_key].get('modifications', [])]
+        if out.nodes[node_key].get('atomname') != canonical or label not in labels:
+            problem = ('c14:pipeline-not-identified', 'requests %r on residue %s: the atom of %s is named %r with labels %r' % (
+                list(order), spec, label, out.nodes[node_key].get('atomname'), labels))
+            break
+    acc.case(nontrivial=True, outcome=('double', problem[0] if problem else None, warned))
+    if problem:
+        acc.violation(problem[0], problem[1], case)
+
+
 def pipeline_items():
     for layout, residues in LAYOUTS.items():
         for requested in range(len(residues)):
@@ -440,7 +507,10 @@ def work(task):
     if task[0] == 'pipeline':
         acc = Acc()
         for item in task[1]:
-            pipeline_case(item, acc)
+            if item[0] == 'double':
+                double_request_case(item[1:], acc)
+            else:
+                pipeline_case(item, acc)
         return acc
     nres, extras_list, mod_sets = task
     acc = Acc()
@@ -470,6 +540,8 @@ def run(ctx):
         acc += part
     ctx.layer('placements', acc)
     items = list(pipeline_items())
+    items += [('double', layout, requested, order) for layout, residues in LAYOUTS.items() for requested in range(len(residues))
+              for order in (('ADD-H', 'C-OX'), ('C-OX', 'ADD-H'))]
     acc = Acc()
     for part in common.pmap(work, [('pipeline', chunk) for chunk in common.chunked(items, max(1, len(items) // 16))]):
         acc += part
@@ -478,11 +550,15 @@ def run(ctx):
 
 def replay(case):
     common.bind_repo()
+    if case.get('layer') == 'pipeline-double':
+        acc = Acc()
+        double_request_case((case['layout'], case['requested'], tuple(case['order'])), acc)
+        return [(s, d) for s, d, _ in acc.violations]
     if case.get('layer') == 'pipeline':
         acc = Acc()
         pipeline_case((case['layout'], case['requested'], case['request_mod'], case['extra'], case['extra_res']), acc)
         return [(s, d) for s, d, _ in acc.violations]
     acc = Acc()
-    extras = tuple((e, tuple(a)) for e, a in case['extras'])
+    extras = tuple((x[0], tuple(x[1])) + tuple(x[2:]) for x in case['extras'])
     check(case['nres'], extras, tuple(case['mods']), acc)
     return [(s, d) for s, d, _ in acc.violations]
